@@ -44,8 +44,10 @@ def impl(parts, **kw):
 
 
 def build(payload, fill, talker='AI', typ='VDM', channel='A', seq=None, cuts=(), order=None, as_str=False, suffix=b'',
-          tag=None, bad_checksum_on=None):
-    """-> list of carrier sentences (bytes or str) for the armored payload."""
+          tag=None, bad_checksum_on=None, witness=None):
+    """-> list of carrier sentences (bytes or str) for the armored payload.  If [witness] is a dict it receives how the
+    carrier was made (seq, and per fragment in fragment order: chunk, talker, type, channel, checksum characters, tag block,
+    trailing bytes) -- the witness of Spec/CarrierSpec.v is_carrier."""
     bounds = [0] + list(cuts) + [len(payload)]
     chunks = [payload[bounds[i]:bounds[i + 1]] for i in range(len(bounds) - 1)]
     n = len(chunks)
@@ -60,6 +62,11 @@ def build(payload, fill, talker='AI', typ='VDM', channel='A', seq=None, cuts=(),
         if tag is not None:
             body = tag.encode()
             s = b'\\' + body + b'*' + format(ais.xor_checksum(body), '02X').encode() + b'\\' + s
+        if witness is not None:
+            witness.setdefault('frags', []).append({
+                'chunk': ch.encode(), 'talker': talker.encode(), 'type': typ.encode(), 'channel': channel.encode(),
+                'checksum': s[-2:], 'tag': None if tag is None else s[1:s.index(b'\\', 1)], 'trailing': suffix})
+            witness['seq'] = seq
         s = s + suffix
         out.append(s.decode('ascii') if as_str else s)
     if order is not None:
@@ -134,11 +141,59 @@ def variations(rng, payload, fill, budget, exhaustive_cuts):
             yield ('fragments', k, 'in-order' if list(order) == sorted(order) else 'permuted'), opts
 
 
+def malformed(rng, payload, fill):
+    """Argument lists OUTSIDE the carrier family (the property says nothing about them; they tie the remaining
+    statements of _assemble_messages / assemble_from_iterable / AISSentence.decode to the model): missing part,
+    duplicate part, too many parts, counts that differ between the parts, an empty payload, a non-AIS sentence mixed
+    in, an unknown sentence, no argument at all, a payload over the length limit, fill bits on an inner part."""
+    n = len(payload)
+    c1, c2 = max(1, n // 3), max(2, 2 * n // 3)
+    three = build(payload, fill, cuts=(c1, c2), seq=4, channel='B')
+    two = build(payload, fill, cuts=(c1,), seq=4)
+    one = build(payload, fill)
+    gh = b'$PGHP,1,2020,12,31,23,59,58,239,0,0,0,1,2C*5B'
+    yield 'missing-last', three[:2]
+    yield 'missing-first', three[1:]
+    yield 'missing-middle', [three[2], three[0]]
+    yield 'duplicate-part', [three[0], three[1], three[1]]
+    yield 'duplicate-first', [three[0], three[0], three[2]]
+    yield 'too-many', three + [three[1]]
+    yield 'too-many-single', one + one
+    yield 'two-messages', one + two
+    yield 'count-mismatch', [two[0], three[2]]
+    yield 'count-mismatch-rev', [three[2], two[0]]
+    yield 'count-last-wins', [three[0], three[1], two[1]]
+    yield 'nothing', []
+    yield 'empty-payload', [ais.sentence('AIVDM', 1, 1, None, 'A', '', 0)]
+    yield 'empty-payload-part', [two[0], ais.sentence('AIVDM', 2, 2, 4, 'A', '', 0)]
+    yield 'empty-first-part', [ais.sentence('AIVDM', 2, 1, 4, 'A', '', 0), two[1]]
+    yield 'gatehouse-mixed-in', [gh] + two
+    yield 'gatehouse-between', [two[1], gh, two[0]]
+    yield 'gatehouse-only', [gh]
+    yield 'unknown-sentence-mixed-in', [two[0], b'$GPGGA,123519,4807.038,N,01131.000,E,1,08,0.9,545.4,M,46.9,M,,*47', two[1]]
+    yield 'blank-argument', [two[0], b'  ', two[1]]
+    yield 'payload-201', [ais.sentence('AIVDM', 1, 1, None, 'A', (payload * (201 // n + 1))[:201], 0)]
+    yield 'payload-200', [ais.sentence('AIVDM', 1, 1, None, 'A', (payload * (200 // n + 1))[:200], 0)]
+    yield 'fill-on-inner-part', [ais.sentence('AIVDM', 2, 1, 4, 'A', payload[:c1], 2), two[1]]
+    yield 'fragment-number-0', [ais.sentence('AIVDM', 2, 0, 4, 'A', payload[:c1], 0), two[1]]
+    yield 'fragment-number-beyond-count', [two[0], ais.sentence('AIVDM', 2, 3, 4, 'A', payload[c1:], fill)]
+    yield 'six-parts', build(payload, fill, cuts=tuple(range(1, 6)), seq=1) if n >= 6 else one
+    yield 'six-parts-reversed', list(reversed(build(payload, fill, cuts=tuple(range(1, 6)), seq=1))) if n >= 6 else one
+    yield 'nine-parts-shuffled', rng.sample(build(payload, fill, cuts=tuple(range(1, 9)), seq=1), 9) if n >= 9 else one
+    yield 'unarmored-character', [ais.sentence('AIVDM', 1, 1, None, 'A', payload[:3] + 'z' + payload[4:], fill)]
+    yield 'non-printable-character', [ais.sentence('AIVDM', 1, 1, None, 'A', payload[:3].encode() + b'\x7f' + payload[4:].encode(), fill)]
+    yield 'str-non-ascii', ['!AIVDM,1,1,,A,' + payload[:3] + '\u00e9' + payload[4:] + ',0*00']
+    # a non-ASCII character where it does no harm (inside the tag block): the UTF-8 encoding of str arguments shows in
+    # the tag block bytes of the delivered sentence
+    yield 'str-non-ascii-tag', ['\\c:1,t:caf\u00e9*00\\' + one[0].decode()]
+    yield 'leading-blank', [b' \r\n' + one[0]]
+
+
 def run(ctx, n_payloads=None, cut_budget=None):
     rng = ctx.rng
     n_payloads = n_payloads if n_payloads is not None else ctx.budget(2, 6)
     cut_budget = cut_budget if cut_budget is not None else ctx.budget(4, 30)
-    model_cases = []
+    model_cases = []          # (bits, argument list, carrier witness or None)
     for variant in cc.VARIANTS:
         for j in range(n_payloads):
             length = variant[2]
@@ -149,18 +204,34 @@ def run(ctx, n_payloads=None, cut_budget=None):
                     length -= rng.choice([1, 2, 3, 4, 5])
             bits = cc.make_payload(rng, variant, length)
             payload, fill = ais.armor(bits)
-            base_parts = build(payload, fill)
+            w0 = {}
+            base_parts = build(payload, fill, witness=w0)
             base = impl(base_parts)
             ctx.rep.case(tuple(base_parts), kind='base')
+            model_cases.append((bits, base_parts, (payload, fill, w0)))
             if base[0] != 'Ok':
                 ctx.rep.count('base-raises:' + base[1])
-                # the plain carrier itself is rejected: nothing to compare against (C01/C11 territory)
+                # the plain carrier itself is rejected.  A payload that no carrier can deliver is C01/C11 territory, but
+                # the rejection must not depend on the carrier either: the same payload in two parts must fail too
+                if len(payload) >= 2:
+                    two = build(payload, fill, cuts=(len(payload) // 2,), seq=1)
+                    got = impl(two)
+                    ctx.rep.case(tuple(two), kind='base-raises-two-parts')
+                    if got[0] == 'Ok' or got[1] != base[1]:
+                        ctx.rep.violation(
+                            {'entry': 'decode', 'component': 'exception', 'kind': 'carrier-dependent-outcome',
+                             'transformation': 'fragments'},
+                            f'the plain carrier is rejected with {base[1]} but the same payload in two parts gives '
+                            f'{got[1] if got[0] == "Raise" else "a " + got[1][0]}',
+                            {'bits': bits, 'parts': [p.decode('latin-1') for p in two], 'as_str': False, 'kw': {},
+                             'base_raises': base[1]})
                 continue
             small = ais.armor(bits[:48])          # exhaustive cut sets on a short prefix of the same payload
             for desc, opts in variations(rng, payload, fill, cut_budget, False):
-                parts = build(payload, fill, **opts)
+                w = {}
+                parts = build(payload, fill, witness=w, **opts)
                 check(ctx, bits, base, desc, parts)
-                model_cases.append((bits, parts))
+                model_cases.append((bits, parts, (payload, fill, w)))
                 if desc[0] == 'fragments' and desc[2] == 'permuted':
                     # the same parts once more, in fragment order: an earlier call must leave no trace (hidden state)
                     again = build(payload, fill, **dict(opts, order=None))
@@ -171,8 +242,15 @@ def run(ctx, n_payloads=None, cut_budget=None):
                 if sbase[0] == 'Ok':
                     for desc, opts in variations(rng, sp, sf, 0, True):
                         if desc[0] == 'fragments':
-                            check(ctx, bits[:48], sbase, desc, build(sp, sf, **opts))
+                            w = {}
+                            parts = build(sp, sf, witness=w, **opts)
+                            check(ctx, bits[:48], sbase, desc, parts)
+                            if rng.random() < 0.05:
+                                model_cases.append((bits[:48], parts, (sp, sf, w)))
             if j == 0:
+                for kind, parts in malformed(rng, payload, fill):
+                    ctx.rep.count('malformed:' + kind)
+                    model_cases.append((bits, parts, None))
                 ctx.rep.sample({'variant': variant[0], 'bits': bits[:48] + '...', 'plain carrier': base_parts[0].decode(),
                                 'a fragmented, permuted carrier': [p if isinstance(p, str) else p.decode() for p in
                                                                     build(payload, fill, cuts=(1,), order=(1, 0), seq=3,
@@ -181,15 +259,31 @@ def run(ctx, n_payloads=None, cut_budget=None):
 
 
 def run_model(ctx, cases):
-    """model-vs-code: extracted decode_api on the same carrier sentences (driver command `decodeapi`)."""
+    """model-vs-code: extracted decode_api on the same argument lists (driver command `decodeapi_full`), and the
+    specification's witness check on every generated carrier (driver command `carrierchk`): the carriers the oracle
+    judges must be inside the family the theorem quantifies over."""
     if not ctx.model or not cases:
         return
-    import stream_glue  # noqa: F401  (written with the nmea layer)
+    import stream_glue
+    if ctx.quick and len(cases) > 4500:
+        # the quick tier compares a PRNG-drawn share (all malformed lists, all base carriers); the oracle saw them all
+        keep = [c for c in cases if c[2] is None or len(c[1]) == 1 and c[2][2].get('seq') is None]
+        rest = [c for c in cases if not (c[2] is None or len(c[1]) == 1 and c[2][2].get('seq') is None)]
+        cases = keep + ctx.rng.sample(rest, max(0, 4500 - len(keep)))
     stream_glue.compare_decode_api(ctx, cases)
+    items = [(c[2][0].encode(), c[2][1], c[2][2]['seq'], c[2][2]['frags'], c[1]) for c in cases if c[2] is not None]
+    inside = stream_glue.label_carriers(ctx, items)
+    ctx.rep.count('carrier-inside-spec-family', sum(inside))
+    ctx.rep.count('argument-list-outside-family(model-vs-code only)', sum(1 for c in cases if c[2] is None))
+    for it, ok in zip(items, inside):
+        if not ok:
+            ctx.rep.internal('the harness judged a carrier that Spec/CarrierSpec.v carrier_checkb rejects: '
+                             + repr([p if isinstance(p, str) else p.decode('latin-1') for p in it[4]])[:400])
+            break
 
 
 def hunt(ctx):
-    run(ctx, n_payloads=ctx.budget(4, 12), cut_budget=ctx.budget(40, 120))
+    run(ctx, n_payloads=ctx.budget(1, 12), cut_budget=ctx.budget(10, 120))
 
 
 def replay(ctx, data):
@@ -199,4 +293,7 @@ def replay(ctx, data):
     got = impl(parts, **data.get('kw', {}))
     if base[0] == 'Ok' and got != base:
         return f'decodes differently from the plain carrier of the same payload: {got[1] if got[0] == "Raise" else "field values differ"}'
+    if base[0] == 'Raise' and (got[0] == 'Ok' or got[1] != base[1]):
+        return (f'the plain carrier of the payload is rejected with {base[1]} but this carrier gives '
+                f'{got[1] if got[0] == "Raise" else "a " + got[1][0]}')
     return None
